@@ -80,9 +80,21 @@ type runner struct {
 	p    *pool
 	h0   []uint32 // first observed Hash() of every pool value
 	h0ok []bool
+	ns   map[string]int // samples taken per phase in this shard
+}
+
+// wantSample allows at most two samples per shard, of one phase, so that the evidence shows every phase.
+func (r *runner) wantSample(phase string) bool {
+	// the parent keeps the first sample of the first few shards: let the shard number choose the phase
+	if []string{"pair", "triple", "sort"}[r.c.Shard%3] != phase || r.ns[phase] >= 2 || !r.c.WantSample() {
+		return false
+	}
+	r.ns[phase]++
+	return true
 }
 
 func run(c *driver.Ctx) {
+	runtime.GOMAXPROCS(2) // one worker thread per child plus the collector; the parent runs one child per core
 	ev, err := newEnv()
 	if err != nil {
 		c.Inconclusive("cannot compile helper module: %v", err)
@@ -97,13 +109,13 @@ func run(c *driver.Ctx) {
 	if c.Variant == "fallback" && starlark.MakeInt(1) == starlark.MakeInt(1) {
 		c.Inconclusive("variant fallback: the 4GB reservation succeeded, fallback Int representation not active")
 	}
-	target := c.Pick(290, 600)
+	target := c.Pick(480, 900)
 	var p *pool
 	if pn := sl.Safe(func() { p = buildPool(ev, c.GlobalRand("pool"), target) }); pn != nil {
 		c.Inconclusive("pool construction panicked: %v", pn.Value)
 		return
 	}
-	r := &runner{c: c, env: ev, p: p}
+	r := &runner{c: c, env: ev, p: p, ns: map[string]int{}}
 	r.h0 = make([]uint32, len(p.ents))
 	r.h0ok = make([]bool, len(p.ents))
 	for i, e := range p.ents {
@@ -114,10 +126,11 @@ func run(c *driver.Ctx) {
 	c.Cover("pool_size", fmt.Sprint(len(p.ents)))
 
 	r.pairs()
-	r.triples(c.Pick(64, 150))
+	r.triples(c.Pick(72, 180))
 	r.sorts(c.Pick(2000, 200000))
 	r.tables(c.Pick(24, 400))
 	r.gcStability(c.Pick(8, 48))
+	r.freezeStability()
 }
 
 // ---------------------------------------------------------------------------------------------
@@ -182,6 +195,28 @@ func (r *runner) gcStability(n int) {
 		}
 		c.Eval(1)
 	}
+}
+
+// freezeStability is the last case: freezing is part of a value's life, and its hash (and its
+// equality with itself) must survive it.
+func (r *runner) freezeStability() {
+	c := r.c
+	if !c.Take() {
+		return
+	}
+	c.Note("freeze every pool value, then re-hash")
+	for i, e := range r.p.ents {
+		if p := sl.Safe(func() { e.v.Freeze() }); p != nil {
+			c.Count("freeze_panics_ignored", 1) // C02/C04 territory
+			continue
+		}
+		r.checkHashStable(i, e, "after Freeze()")
+		c.Count("freeze_rehash_values", 1)
+		if eq, err := starlark.Equal(e.v, e.v); err == nil && !eq {
+			r.violate("C11 == not reflexive "+e.m.k.String(), fmt.Sprintf("x == x gave False after Freeze() for x=%s", desc(e)), map[string]any{"x": desc(e)})
+		}
+	}
+	c.Eval(1)
 }
 
 func (r *runner) checkHashStable(i int, e *ent, when string) (uint32, bool) {
